@@ -12,7 +12,7 @@ from pathlib import Path
 import codec
 
 PROP = "C09"
-LEAN_MODULES = ["Props.C09", "Props.C09F"]
+LEAN_MODULES = ["Props.C09", "Props.C09F", "Props.C09D"]
 RULE = (
     "case = (binary layout of 2/4/8-byte integer and float fields, ASCII literal and date fields, any order, gaps; "
     "value list; optionally earlier records written and read through the SAME Line object first). Line(fields, storage='BINARY').write(values) and .read(bytes) on the real code are compared with the "
@@ -28,7 +28,7 @@ ASSUMPTIONS = [
     "numpy casts double -> float16/float32 round to nearest even with overflow to infinity (the model computes this exactly; compared on every case)",
 ]
 TRUSTED = ["numpy tobytes/frombuffer/astype as the implementation's encoder, struct as the harness-side cross-check"]
-NOT_THEOREMS = ['per-field binary law BinLaw for non-ASCII literals and for dates: hypothesis of Props.C09.line_main, evaluated per case; proved for integers, ASCII literals, floats (Props.C09.binLaw_flt: decodeFloat(encodeFloat x) = x rounded to binary16 / 32 / 64, Proofs/FloatBin.lean) and missing values — Props.C09.main_nodate is the whole statement for every layout without date fields']
+NOT_THEOREMS = ['per-field binary law BinLaw for non-ASCII literals: hypothesis of Props.C09.line_main, evaluated per case; proved for integers, ASCII literals, floats (Props.C09.binLaw_flt: decodeFloat(encodeFloat x) = x rounded to binary16 / 32 / 64, Proofs/FloatBin.lean), dates (Props.C09.binLaw_date, from the text law of dates) and missing values — Props.C09.main_all is the whole statement for every admitted layout (literals are ASCII in the domain)']
 EXHAUSTIVE = {"quick": True, "thorough": True}
 
 import sys
